@@ -8,7 +8,7 @@
     * `New M c c'`    — every entry of `c'` is an entry of `c` or ends at or before `M`
                         (what a look-ahead run inside a frame with `pos_max = M` does to the memo;
                         keeps `Closed _ _ M`: `Closed.of_new`);
-    * `Laminar m`     — no two memo entries cross (`k < k' < v → v' ≤ v`);
+    * `Laminar m`     — no two memo entries cross (`k ≤ k' < v → v' ≤ v`; unique keys included);
     * `Path m a b`    — `b` is reached from `a` by following memo entries (`lookup`);
     * `closed_of_path` — a path over a laminar memo is closed: the bridge from laminarity to the frame
                         entry condition.
@@ -26,9 +26,9 @@ def Closed (m : List (Nat × Nat)) (a b : Nat) : Prop :=
 def New (M : Nat) (c c' : List (Nat × Nat)) : Prop :=
   ∀ k v, (k, v) ∈ c' → (k, v) ∈ c ∨ v ≤ M
 
-/-- no two memo entries cross -/
+/-- no two memo entries cross, and no key has two different entries (`k = k'` gives `v' ≤ v` both ways) -/
 def Laminar (m : List (Nat × Nat)) : Prop :=
-  ∀ k v k' v', (k, v) ∈ m → (k', v') ∈ m → k < k' → k' < v → v' ≤ v
+  ∀ k v k' v', (k, v) ∈ m → (k', v') ∈ m → k ≤ k' → k' < v → v' ≤ v
 
 /-- `b` is reached from `a` by following memo entries -/
 inductive Path (m : List (Nat × Nat)) : Nat → Nat → Prop where
@@ -91,29 +91,22 @@ theorem closed_hit {st : IState} {lo x : Nat} (hc : Closed st.cache lo st.posMax
   hc _ _ (lookup_mem hx) hlo hlt
 
 /-- one memo step over a laminar memo is closed -/
-theorem closed_of_step {m : List (Nat × Nat)} (hl : Laminar m) {a b : Nat} (h : m.lookup a = some b)
-    (hone : ∀ v, (a, v) ∈ m → v = b) : Closed m a b := by
+theorem closed_of_step {m : List (Nat × Nat)} (hl : Laminar m) {a b : Nat} (h : m.lookup a = some b) :
+    Closed m a b := by
   intro k v hkv hlo hlt
-  by_cases hk : k = a
-  · subst hk; rw [hone v hkv]; exact Nat.le_refl _
-  · exact hl a b k v (lookup_mem h) hkv (by omega) hlt
+  exact hl a b k v (lookup_mem h) hkv hlo hlt
 
-/-- keys are unique (every `cacheInsert` of the tokenizer happens behind a failed `lookup`) -/
-def UniqueKeys (m : List (Nat × Nat)) : Prop := ∀ k v v', (k, v) ∈ m → (k, v') ∈ m → v = v'
-
-/-- **a memo path over a laminar memo is closed** — with `Path m ls le` left by the look-ahead walk of
-    a label this is the frame entry condition `Closed m ls le` -/
-theorem closed_of_path {m : List (Nat × Nat)} (hl : Laminar m) (hu : UniqueKeys m)
+/-- **a memo path over a laminar memo is closed** — with the `Path m ls le` left by the look-ahead walk
+    of a label this is the frame entry condition `Closed m ls le` -/
+theorem closed_of_path {m : List (Nat × Nat)} (hl : Laminar m)
     (hf : ∀ k v, (k, v) ∈ m → k < v) {a b : Nat} (h : Path m a b) : Closed m a b := by
   induction h with
   | refl a => exact Closed.empty m a
   | step hab _ ih =>
-    have hm := lookup_mem hab
-    have := hf _ _ hm
-    refine Closed.append (closed_of_step hl hab (fun v hv => hu _ _ _ hv hm)) ih ?_
+    refine Closed.append (closed_of_step hl hab) ih ?_
     -- the rest of the path goes forward
     rename_i a b c hbc
-    clear ih hab hm this
+    clear ih hab
     induction hbc with
     | refl a => exact Nat.le_refl _
     | step h _ ih => have := hf _ _ (lookup_mem h); omega
@@ -129,6 +122,63 @@ theorem Path.trans {m : List (Nat × Nat)} {a b c : Nat} (h1 : Path m a b) (h2 :
   induction h1 with
   | refl a => exact h2
   | step h _ ih => exact .step h (ih h2)
+
+
+/-! ## growth of the memo as `lookup` sees it -/
+
+/-- `c'` answers every `lookup` that `c` answers, the same way -/
+def LookupMono (c c' : List (Nat × Nat)) : Prop := ∀ k v, c.lookup k = some v → c'.lookup k = some v
+
+/-- what a look-ahead run that only visits positions `≥ p` inside a frame with `pos_max = M` does to
+    the memo: old answers stay, keys below `p` are untouched, new entries end at or before `M` -/
+structure Grow (p M : Nat) (c c' : List (Nat × Nat)) : Prop where
+  new : New M c c'
+  mono : LookupMono c c'
+  low : ∀ k, k < p → c'.lookup k = c.lookup k
+
+theorem LookupMono.refl (c : List (Nat × Nat)) : LookupMono c c := fun _ _ h => h
+
+theorem LookupMono.trans {a b c : List (Nat × Nat)} (h1 : LookupMono a b) (h2 : LookupMono b c) :
+    LookupMono a c := fun k v h => h2 k v (h1 k v h)
+
+theorem Grow.refl (p M : Nat) (c : List (Nat × Nat)) : Grow p M c c :=
+  ⟨New.refl M c, LookupMono.refl c, fun _ _ => rfl⟩
+
+theorem Grow.trans {p M : Nat} {a b c : List (Nat × Nat)} (h1 : Grow p M a b) (h2 : Grow p M b c) :
+    Grow p M a c :=
+  ⟨h1.new.trans h2.new, h1.mono.trans h2.mono, fun k hk => (h2.low k hk).trans (h1.low k hk)⟩
+
+theorem Grow.mono_lo {p p' M : Nat} {a b : List (Nat × Nat)} (h : Grow p M a b) (hle : p' ≤ p) :
+    Grow p' M a b := ⟨h.new, h.mono, fun k hk => h.low k (by omega)⟩
+
+theorem Grow.mono_max {p M M' : Nat} {a b : List (Nat × Nat)} (h : Grow p M a b) (hle : M ≤ M') :
+    Grow p M' a b := ⟨h.new.mono hle, h.mono, h.low⟩
+
+theorem lookup_cacheInsert (c : List (Nat × Nat)) (k v k' : Nat) :
+    (cacheInsert c k v).lookup k' = if k' = k then some v else c.lookup k' := by
+  unfold cacheInsert
+  simp only [List.lookup_cons]
+  by_cases h : k' = k
+  · subst h; simp
+  · have : (k' == k) = false := by simpa using h
+    simp [this, h]
+
+/-- the insertion behind a failed `lookup`, after a run that did not touch the key -/
+theorem Grow.insert {p M : Nat} {a b : List (Nat × Nat)} (h : Grow (p + 1) M a b) {v : Nat}
+    (hv : v ≤ M) (hmiss : a.lookup p = none) : Grow p M a (cacheInsert b p v) := by
+  refine ⟨h.new.insert hv, ?_, ?_⟩
+  · intro k w hk
+    rw [lookup_cacheInsert]
+    by_cases hkp : k = p
+    · subst hkp; rw [hmiss] at hk; cases hk
+    · rw [if_neg hkp]; exact h.mono k w hk
+  · intro k hk
+    rw [lookup_cacheInsert, if_neg (by omega)]
+    exact h.low k (by omega)
+
+theorem lookup_cacheInsert_self (c : List (Nat × Nat)) (k v : Nat) :
+    (cacheInsert c k v).lookup k = some v := by
+  rw [lookup_cacheInsert]; simp
 
 /-- the state with a smaller `pos_max` (the window a nested frame / a replay sees) -/
 def IState.shrink (st : IState) (M' : Nat) : IState := { st with posMax := M' }
